@@ -33,7 +33,8 @@ theorem groupBy_partition (hash : Nat → Nat) (eqv : Nat → Nat → Bool) (kr 
 -- them makes a `gen_*_canon` theorem of this property's modules fail, renaming their locals or reformatting them changes nothing:
 -- `maxLoadFactor`, `growthFactor`, `calculateInitialSizeExp`, `table.insertEntry`, `table.grow`, `groupIndex`, `GroupBy`, `equals`, `table.hash`, `newTable`:
 -- regenerated as `Gen.grouperFns` (grpast.go, the constants are folded into the terms), `C04GrouperCanon.gen_grouper_canon` + `C04GrouperGen.gen_grouper_semantics`.
-theorem tie : Tie.sameAll ["qframe.QFrame.GroupBy", "qframe.Aggregate", "qframe.Grouper.QFrames"] = true := by decide
+-- QFrame.GroupBy, Grouper.QFrames and the glue of Aggregate are regenerated in `Gen.groupByAst` / `qframesAst` / `aggregateGlueAst` (C04GlueGen, C04GlueLink.gen_groupby_partition); nothing of C04 is compared as text any more.
+theorem tie : Tie.sameAll [] = true := by decide
 
 /-- The load factor and growth factor of the table in today's source: the probe terminates because the table is
 never full (`maxLoadFactor < 1`) and growth doubles the size. -/
